@@ -258,7 +258,7 @@ def run_ensemble_maps(rng, obs):
     raw = K.make_cost(spec)
     box = K.gen_box(rng, dim, None, shape='finite')
     if spec[0] == 'plateau' and rng.random() < 0.7:      # a wide box around the plateau so that several members reach the bottom
-        box = {'lo': [c - 6.0 for c in spec[1]], 'hi': [c + 6.0 for c in spec[1]], 'shape': 'finite'}
+        box = {'lo': [round(c - 6.0, 2) for c in spec[1]], 'hi': [round(c + 6.0, 2) for c in spec[1]], 'shape': 'finite'}
     npts = rng.choice([2, 3, 4, 6])
     maxiter = rng.choice([3, 8, 20])
     obs.desc = {'ensemble': which, 'nested': nested, 'dim': dim, 'cost': spec, 'box': box, 'npts': npts, 'maxiter': maxiter}
